@@ -272,8 +272,8 @@ pub fn variants(prop: &str, base: &Plan, dry: &RunOut, r: &mut crate::env::Split
                         }
                         // C10: a drain dropped with elements left whose destructor panics inside that drop
                         // (the first, second or third destructor call of the drop, key or value)
-                        // (quick tier: three cancellation points; thorough: all of them; two destructor positions each)
-                        if prop == "C10" && end == End::Drop && matches!(base.ops[i], Op::Drain { .. } | Op::SDrain { .. }) && (j as usize) < base.cfg.n.max(base.cfg.m) && (thorough || j == 0 || j == 1 || j == 3) {
+                        // (three cancellation points, thorough: every fourth one as well and every session of the history; two destructor positions each)
+                        if prop == "C10" && end == End::Drop && matches!(base.ops[i], Op::Drain { .. } | Op::SDrain { .. }) && (j as usize) < base.cfg.n.max(base.cfg.m) && (j == 0 || j == 1 || j == 3 || (thorough && j % 4 == 2)) {
                             let sites: &[(u32, Cb)] = if thorough && j % 2 == 1 { &[(2, Cb::DropK), (1, Cb::DropV)] } else { &[(1, Cb::DropK), (2, Cb::DropV)] };
                             for &(ord, kind) in sites {
                                 let mut q = p.clone();
